@@ -22,13 +22,15 @@ func VerifFingerprint(t *Template) string {
 	}
 	var b strings.Builder
 	b.WriteString("name=" + t.name + ";")
-	verifDump(&b, reflect.ValueOf(t.nodes), 0)
+	verifDump(&b, reflect.ValueOf(t.nodes), 0, map[uintptr]bool{})
 	return b.String()
 }
 
-func verifDump(b *strings.Builder, v reflect.Value, depth int) {
-	if depth > 200 {
-		b.WriteString("<deep>")
+// verifDump writes each pointed-to struct once (later occurrences print as <ref>), so
+// that shared or cyclic node graphs - which only exist when something went wrong - stay small.
+func verifDump(b *strings.Builder, v reflect.Value, depth int, seen map[uintptr]bool) {
+	if depth > 200 || b.Len() > 1<<20 {
+		b.WriteString("<cut>")
 		return
 	}
 	if !v.IsValid() {
@@ -36,19 +38,30 @@ func verifDump(b *strings.Builder, v reflect.Value, depth int) {
 		return
 	}
 	switch v.Kind() {
-	case reflect.Interface, reflect.Ptr:
+	case reflect.Interface:
 		if v.IsNil() {
 			b.WriteString("nil")
 			return
 		}
-		verifDump(b, v.Elem(), depth+1)
+		verifDump(b, v.Elem(), depth+1, seen)
+	case reflect.Ptr:
+		if v.IsNil() {
+			b.WriteString("nil")
+			return
+		}
+		if seen[v.Pointer()] {
+			b.WriteString("<ref>")
+			return
+		}
+		seen[v.Pointer()] = true
+		verifDump(b, v.Elem(), depth+1, seen)
 	case reflect.Struct:
 		b.WriteString(v.Type().Name())
 		b.WriteString("{")
 		for i := 0; i < v.NumField(); i++ {
 			b.WriteString(v.Type().Field(i).Name)
 			b.WriteString(":")
-			verifDump(b, v.Field(i), depth+1)
+			verifDump(b, v.Field(i), depth+1, seen)
 			b.WriteString(",")
 		}
 		b.WriteString("}")
@@ -59,7 +72,7 @@ func verifDump(b *strings.Builder, v reflect.Value, depth int) {
 		}
 		b.WriteString("[")
 		for i := 0; i < v.Len(); i++ {
-			verifDump(b, v.Index(i), depth+1)
+			verifDump(b, v.Index(i), depth+1, seen)
 			b.WriteString(",")
 		}
 		b.WriteString("]")
@@ -68,8 +81,8 @@ func verifDump(b *strings.Builder, v reflect.Value, depth int) {
 		iter := v.MapRange()
 		for iter.Next() {
 			var kb, vb strings.Builder
-			verifDump(&kb, iter.Key(), depth+1)
-			verifDump(&vb, iter.Value(), depth+1)
+			verifDump(&kb, iter.Key(), depth+1, seen)
+			verifDump(&vb, iter.Value(), depth+1, seen)
 			parts = append(parts, kb.String()+"=>"+vb.String())
 		}
 		sort.Strings(parts)
